@@ -131,3 +131,14 @@ Definition lc_rec (maxline : Z) (c : logcall) : bbrec :=
   with_msg (lc_hdr c) (bb_msg maxline (lc_len1 c) (lc_m1 c) (lc_m2 c)).
 
 Definition lc_op (maxline : Z) (c : logcall) : bbop := BLog maxline (lc_hdr c) (lc_len1 c) (lc_m1 c) (lc_m2 c).
+
+(* ------------------------------------------------------------------ for the model runner *)
+(* conf[i].max_line_length = QB_LOG_MAX_LEN unless QB_LOG_CONF_MAX_LINE_LEN was set *)
+Definition bb_default_maxline : Z := BBO_LOG_MAX_LEN.
+(* return value of qb_log_blackbox_write_to_file: blackbox header + five ring header words + the data area *)
+Definition bb_dump_file_size (st : bbst) : Z :=
+  match st with
+  | Some b => BBO_FILE_HEADER_SIZE + 5 * BBO_SIZEOF_U32 + BBO_SIZEOF_U32 * rW b
+  | None => - BBO_ENOENT
+  end.
+Definition bb_timespec_size : Z := BBO_SIZEOF_TIMESPEC.
